@@ -57,7 +57,8 @@ def case_strategy(draw, ctx):
         ax = draw(st.integers(0, 2))
         lo = [draw(st.integers(2, 2)) for _ in range(3)]
         hi = [sh[a] - 2 for a in range(3)]
-        per_axes = [a for a in range(3) if a != ax and faces[f"min_{scenes.AXNAME[a]}"]["kind"] in ("periodic", "bloch")
+        # wrap axes of a TFSF box must be plain periodic (a phase-shifted Bloch wrap axis is rejected at placement)
+        per_axes = [a for a in range(3) if a != ax and faces[f"min_{scenes.AXNAME[a]}"]["kind"] == "periodic"
                     and draw(st.booleans())]
         for a in per_axes:
             lo[a], hi[a] = 0, sh[a]
